@@ -98,8 +98,10 @@ func (a *TorrentArchive) CreateTorrent(namespace string, d core.Digest) (storage
 			return nil, fmt.Errorf("create download file: %s", createErr)
 		}
 		tm.MetaInfo = mi
-		if err := a.cads.Any().GetOrSetMetadata(d.Hex(), &tm); err != nil {
-			return nil, fmt.Errorf("get or set metainfo: %s", err)
+		// Set rather than get-or-set: after a restart an empty metainfo file (left by a crash between
+		// creating and writing it) is registered with the entry, and get-or-set would only try to read it.
+		if _, err := a.cads.Any().SetMetadata(d.Hex(), &tm); err != nil {
+			return nil, fmt.Errorf("set metainfo: %s", err)
 		}
 	} else if err != nil {
 		return nil, fmt.Errorf("get metainfo: %s", err)
